@@ -47,6 +47,18 @@ CHECKS = {
         technique="TLA+ read-only mode + action property (TLC) + TLC trace validation with filesystem audit events"),
 }
 
+CHECKS["C09"] = dict(
+    engine="threads",
+    text=("Threads.tla (PlusCal: batch pre-check outside the per-call mutex, re-check inside it, MemoryCache "
+          "put/_evict/_mark_used at statement granularity, cache lock) is model-checked exhaustively for 2 and 3 threads "
+          "over all six scenarios (single flight, no internal error, cache consistency, quiescent accounting, "
+          "termination under fairness); real threads run on real backends under a deterministic scheduler "
+          "(sys.settrace, cooperative locks): all schedules with <=1 preemption at line granularity in runner and cache "
+          "code plus random / sampled 2-preemption / 3-thread schedules; each execution is validated by TLC against "
+          "the SingleFlight monitor (TraceSingleFlight)."),
+    ref="DESIGN.md 5/C09",
+    technique="PlusCal/TLA+ model of runner+cache interleavings (TLC) + systematic schedule enumeration of real threads validated by a TLC monitor")
+
 NOT_YET = {
 }
 
@@ -85,6 +97,8 @@ def main():
             "add_only": True,
         },
         "engines": [
+            {"name": "threads", "path": "harness/check_threads.py", "serves_properties": ["C09"],
+             "kind_free_text": "spec/Threads.tla (PlusCal) + SingleFlightMon, deterministic thread scheduler harness/pylib/verif_sched.py"},
             {"name": "store", "path": "harness/check_store.py", "serves_properties": ["C05", "C06", "C07", "C19"],
              "kind_free_text": "spec/Store.tla + DictMon/LruMon/CasMon/RoMon, TLC model checking, simulation replay, trace validation"},
         ],
